@@ -453,6 +453,9 @@ func c09GroupAlphabet() []mwOp {
 		{K: "rhandle", Name: "r1", P: "/x", Ms: []string{"GET"}, Route: []string{"M1"}},
 		{K: "rhandle", Name: "r2", P: "/x", Ms: []string{"GET"}},
 		{K: "gremove", Name: "r1"},
+		{K: "gnew", Name: "r3"},
+		{K: "ruse", Name: "r3", Use: []string{"X"}},
+		{K: "rhandle", Name: "r3", P: "/x", Ms: []string{"GET"}},
 	}
 }
 
